@@ -25,6 +25,7 @@ POOL_THOROUGH = 1200
 
 SIMPLE_CFG_STEPS = [
     ("nseq", 1),
+    ("extras", None),
     ("npics", 1),
     ("frag", 0),
     ("sy", 1),
@@ -262,3 +263,439 @@ class C02(ByteChanSpec):
 
 
 register(C02())
+
+
+# --------------------------------------------------------------------------
+# C06 — deserialise -> serialise reproduces any parseable stream
+# --------------------------------------------------------------------------
+
+SERDES_KINDS = F.ALL_KINDS + ["f_offsets", "f_offsets", "f_uint", "f_uint", "f_lenbyte", "f_lenbyte", "f_fixed", "f_coeff"]
+
+
+class C06(ByteChanSpec):
+    prop = "C06"
+    title = "Deserialising then serialising any parseable stream reproduces its bytes"
+    quick_runs = 32000
+    thorough_runs = 800000
+    fault_kinds = SERDES_KINDS
+    rule = (
+        "each run = seeded workload (real encoder output / raw bytes) + explicit fault list (as C02, weighted towards "
+        "parse offsets, header varints, slice length bytes and coefficient bits); the faulted bytes are deserialised by "
+        "the real (Monitored)Deserialiser; if and only if that parses to completion the description is re-serialised "
+        "by the real Serialiser and deserialised again. Judged: output bytes == input bytes and second description == "
+        "first. Runs the deserialiser cannot parse are discarded (outside the property's domain) and counted. "
+        "non-trivial = bytes changed by a fault and still parsed; distinct = distinct event digest."
+    )
+
+    def judge(self, case, clean, data, changed, events, stats):
+        d = R.run_deserialiser(data)
+        events.append(("deser", d.verdict, type(d.exc).__name__ if d.exc else None, d.reads))
+        key = "%s|%s|%s" % (cfg_class(case.get("cfg")), self.kinds_of(case), d.verdict)
+        if d.verdict == "oos":
+            stats["discard:out-of-scope"] += 1
+            return Outcome(DISCARD, events, stats=stats, ticks=d.reads)
+        if d.verdict == "fail":
+            stats["discard:not-parseable:" + type(d.exc).__name__] += 1
+            if not case["faults"] and "cfg" in case:
+                stats["precondition:clean-stream-not-parseable"] += 1
+            return Outcome(DISCARD, events, stats=stats, ticks=d.reads)
+        stats["parsed"] += 1
+        if changed:
+            for f in case["faults"]:
+                stats["parsed_after:" + f.get("kind", f["k"])] += 1
+        out, exc = R.run_serialiser(d.context)
+        if exc is not None:
+            events.append(("ser-exc", type(exc).__name__))
+            return Outcome(
+                VIOLATION, events, sig=exc_sig("C06/serialise-raised", exc),
+                detail="stream of %d bytes deserialised to completion but Serialiser raised:\n%s" % (len(data), short_tb(exc)),
+                stats=stats, nontrivial=changed, key=key, ticks=d.reads,
+            )
+        events.append(("ser", len(out), hash_bytes(out)))
+        if out != data:
+            n = min(len(out), len(data))
+            first = next((i for i in range(n) if out[i] != data[i]), n)
+            return Outcome(
+                VIOLATION, events, sig="C06/bytes-differ",
+                detail="re-serialised bytes differ from the input: first difference at byte %d (input %d bytes, output %d bytes)\n in=%s\nout=%s"
+                % (first, len(data), len(out), data[max(0, first - 4) : first + 8].hex(), out[max(0, first - 4) : first + 8].hex()),
+                stats=stats, nontrivial=changed, key=key, ticks=d.reads,
+            )
+        ctx2, exc2 = R.run_plain_deserialiser(out)
+        if exc2 is not None:
+            return Outcome(
+                VIOLATION, events, sig=exc_sig("C06/redeserialise-raised", exc2),
+                detail="re-deserialising the serialiser's output raised:\n%s" % short_tb(exc2),
+                stats=stats, nontrivial=changed, key=key, ticks=d.reads,
+            )
+        if ctx2 != d.context:
+            return Outcome(
+                VIOLATION, events, sig="C06/description-differs",
+                detail="description obtained from the re-serialised bytes differs from the first description",
+                stats=stats, nontrivial=changed, key=key, ticks=d.reads,
+            )
+        return Outcome(OK, events, stats=stats, nontrivial=changed, key=key, ticks=d.reads)
+
+    def extra_evidence(self, merged):
+        st = merged["stats"]
+        return {
+            "faults_injected": {k[6:]: v for k, v in st.items() if k.startswith("fault:")},
+            "parsed_after_fault": {k[13:]: v for k, v in st.items() if k.startswith("parsed_after:")},
+        }
+
+
+register(C06())
+
+
+# --------------------------------------------------------------------------
+# C08 / C09 — accepted streams: the two parsers agree; pictures are well formed
+# --------------------------------------------------------------------------
+
+ACCEPT_KINDS = ["f_coeff"] * 6 + ["flip", "flip", "f_lenbyte", "f_lenbyte", "f_bool", "f_uint", "f_fixed", "set", "f_picnum", "burst", "zero", "f_unit_dup", "f_unit_drop", "append"]
+
+
+def h_quant_factor(i):
+    base = 1 << (i // 4)
+    r = i % 4
+    if r == 0:
+        return 4 * base
+    if r == 1:
+        return (503829 * base + 52958) // 105917
+    if r == 2:
+        return (665857 * base + 58854) // 117708
+    return (440253 * base + 32722) // 65444
+
+
+def h_inverse_quant(v, qi):
+    """(13.3.1) written independently of vc2_conformance.pseudocode.quantization."""
+    if v == 0:
+        return 0
+    f = h_quant_factor(qi)
+    off = 1 if qi == 0 else 2 if qi == 1 else (f + 1) // 2
+    m = (abs(v) * f + off + 2) // 4
+    return m if v > 0 else -m
+
+
+def h_dc_predict(band):
+    """(13.4) written independently of decoder.transform_data_syntax.dc_prediction."""
+    for y in range(len(band)):
+        row = band[y]
+        for x in range(len(row)):
+            if x > 0 and y > 0:
+                s = row[x - 1] + band[y - 1][x - 1] + band[y - 1][x]
+                p = (s + 1) // 3
+            elif x > 0:
+                p = row[x - 1]
+            elif y > 0:
+                p = band[y - 1][0]
+            else:
+                p = 0
+            row[x] += p
+
+
+def band_order(depth, depth_ho):
+    if depth_ho == 0:
+        out = [(0, "LL")]
+    else:
+        out = [(0, "L")] + [(l, "H") for l in range(1, depth_ho + 1)]
+    for l in range(depth_ho + 1, depth_ho + depth + 1):
+        out += [(l, "HL"), (l, "LH"), (l, "HH")]
+    return out
+
+
+def described_quant_matrix(tp_ctx, st):
+    """The quantisation matrix a picture's deserialised transform parameters
+    describe: the custom values listed, or the default table entry."""
+    from vc2_data_tables import QUANTISATION_MATRICES
+
+    qmc = tp_ctx["quant_matrix"]
+    if qmc["custom_quant_matrix"]:
+        return W.qm_to_dict(list(qmc["quant_matrix"]), st["dwt_depth"], st["dwt_depth_ho"])
+    m = QUANTISATION_MATRICES[(st["wavelet_index"], st["wavelet_index_ho"], st["dwt_depth"], st["dwt_depth_ho"])]
+    return {l: dict(o) for l, o in m.items()}
+
+
+def rebuild_transform(st, slices, is_ld, qm):
+    """From the deserialised slices of one picture and the deserialiser's state
+    copy ``st``, rebuild y/c1/c2 transform arrays: place by slice geometry
+    (shared repo helper — both parsers use it, see DESIGN 9.3), dequantise and
+    DC-predict with the harness's own arithmetic."""
+    from vc2_conformance.pseudocode.slice_sizes import (
+        subband_width, subband_height, slice_left, slice_right, slice_top, slice_bottom,
+    )
+
+    order = band_order(st["dwt_depth"], st["dwt_depth_ho"])
+    out = {}
+    for comp in ("Y", "C1", "C2"):
+        t = {}
+        for lvl, o in order:
+            t.setdefault(lvl, {})[o] = [[0] * subband_width(st, lvl, comp) for _ in range(subband_height(st, lvl, comp))]
+        out[comp] = t
+    for sl in slices:
+        sx, sy, q = sl["_sx"], sl["_sy"], sl["qindex"]
+        if is_ld:
+            streams = [("Y", iter(sl["y_transform"]), None), ("C", iter(sl["c_transform"]), None)]
+        else:
+            streams = [("Y", iter(sl["y_transform"]), None), ("C1", iter(sl["c1_transform"]), None), ("C2", iter(sl["c2_transform"]), None)]
+        for name, it, _ in streams:
+            geom = "Y" if name == "Y" else "C1"
+            for lvl, o in order:
+                qi = max(q - qm[lvl][o], 0)
+                y1, y2 = slice_top(st, sy, geom, lvl), slice_bottom(st, sy, geom, lvl)
+                x1, x2 = slice_left(st, sx, geom, lvl), slice_right(st, sx, geom, lvl)
+                for y in range(y1, y2):
+                    for x in range(x1, x2):
+                        if name == "C":
+                            out["C1"][lvl][o][y][x] = h_inverse_quant(next(it), qi)
+                            out["C2"][lvl][o][y][x] = h_inverse_quant(next(it), qi)
+                        else:
+                            out[name][lvl][o][y][x] = h_inverse_quant(next(it), qi)
+            if next(it, None) is not None:
+                raise ValueError("deserialised slice holds more coefficients than the slice geometry has")
+    if is_ld:
+        dc = "LL" if st["dwt_depth_ho"] == 0 else "L"
+        for comp in ("Y", "C1", "C2"):
+            h_dc_predict(out[comp][0][dc])
+    return out
+
+
+def h_dims(vp, pcm):
+    """Component sizes and depths implied by decoded header values (11.6.2,
+    11.6.3), computed by the harness."""
+    cdf = int(vp["color_diff_format_index"])
+    lw, lh = vp["frame_width"], vp["frame_height"]
+    cw, ch = lw // W.HSUB[cdf], lh // W.VSUB[cdf]
+    if int(pcm) == 1:
+        lh //= 2
+        ch //= 2
+    return {
+        "Y": (lw, lh, W.intlog2(vp["luma_excursion"] + 1)),
+        "C1": (cw, ch, W.intlog2(vp["color_diff_excursion"] + 1)),
+        "C2": (cw, ch, W.intlog2(vp["color_diff_excursion"] + 1)),
+    }
+
+
+PICTURE_CODES = (0xC8, 0xE8)
+FRAGMENT_CODES = (0xCC, 0xEC)
+
+
+class AcceptedSpec(ByteChanSpec):
+    fault_kinds = ACCEPT_KINDS
+    p_control = 0.12
+
+    def judge(self, case, clean, data, changed, events, stats):
+        v = R.run_validator(data, tap=True)
+        vname = v.verdict if v.verdict == "accept" or v.exc is None else "%s:%s" % (v.verdict, type(v.exc).__name__)
+        events.append(("validator", vname, v.reads, len(v.pics)))
+        if v.verdict == "oos":
+            stats["discard:out-of-scope"] += 1
+            return Outcome(DISCARD, events, stats=stats, ticks=v.reads)
+        if v.verdict != "accept":
+            stats["discard:not-accepted"] += 1
+            if not case["faults"] and "cfg" in case:
+                stats["precondition:clean-stream-rejected"] += 1
+            return Outcome(DISCARD, events, stats=stats, ticks=v.reads)
+        stats["accepted"] += 1
+        if changed:
+            stats["accepted_after_fault"] += 1
+            for f in case["faults"]:
+                stats["accepted_after:" + f.get("kind", f["k"])] += 1
+        key = "%s|%s|pics=%d" % (cfg_class(case.get("cfg")), self.kinds_of(case), len(v.pics))
+        return self.judge_accepted(case, data, changed, v, events, stats, key)
+
+    def extra_evidence(self, merged):
+        st = merged["stats"]
+        return {
+            "faults_injected": {k[6:]: v for k, v in st.items() if k.startswith("fault:")},
+            "accepted_after_fault": {k[15:]: v for k, v in st.items() if k.startswith("accepted_after:")},
+        }
+
+
+class C08(AcceptedSpec):
+    prop = "C08"
+    title = "Bitstream deserialiser and validator read identical content"
+    quick_runs = 24000
+    thorough_runs = 600000
+    assumptions = ByteChanSpec.assumptions + [
+        "slice geometry helpers (vc2_conformance.pseudocode.slice_sizes) are shared by both parsers and by the oracle; dequantisation and DC prediction are re-implemented in the harness",
+    ]
+    rule = (
+        "each run = seeded workload + explicit fault list weighted towards slice payload bits, length bytes and header "
+        "fields; only streams the real validator ACCEPTS are judged (others discarded, counted). Judged: the real "
+        "Deserialiser lists the same data units (offset, parse code, next/previous offsets), the same parse parameters / "
+        "decoded video parameters / picture coding mode, the same transform parameters, and its slice coefficients — placed "
+        "by slice geometry, dequantised and DC-predicted by harness code — equal the y/c1/c2 transform arrays captured "
+        "from the validator at picture_decode. non-trivial = accepted although a fault changed the bytes."
+    )
+
+    def judge_accepted(self, case, data, changed, v, events, stats, key):
+        def viol(sig, detail):
+            return Outcome(VIOLATION, events, sig=sig, detail=detail, stats=stats, nontrivial=changed, key=key, ticks=v.reads)
+
+        d = R.run_deserialiser(data)
+        events.append(("deser", d.verdict, type(d.exc).__name__ if d.exc else None))
+        if d.verdict == "oos":
+            stats["discard:out-of-scope-deser"] += 1
+            return Outcome(DISCARD, events, stats=stats, ticks=v.reads)
+        if d.verdict != "parsed":
+            return viol(exc_sig("C08/deserialiser-failed-on-accepted-stream", d.exc), "validator accepted the stream but the deserialiser raised:\n%s" % short_tb(d.exc))
+        ctx = d.context
+        # 1. data units
+        units = []
+        for seq in ctx["sequences"]:
+            for du in seq["data_units"]:
+                pi = du["parse_info"]
+                units.append((pi["_offset"], int(pi["parse_code"]), pi["next_parse_offset"], pi["previous_parse_offset"]))
+        vunits = [(o, int(c), n, p) for (o, c, n, p) in v.unit_codes]
+        if units != vunits:
+            return viol("C08/data-units-differ", "data unit lists differ:\n deserialiser=%r\n validator  =%r" % (units[:12], vunits[:12]))
+        # 2. headers and 3. pictures
+        hi = 0
+        di = 0
+        for seq in ctx["sequences"]:
+            frag_slices = None
+            frag_state = None
+            for du in seq["data_units"]:
+                code = int(du["parse_info"]["parse_code"])
+                if code == 0x00:
+                    if hi >= len(v.headers):
+                        return viol("C08/header-count", "deserialiser saw more sequence headers than the validator")
+                    vh = v.headers[hi]
+                    hi += 1
+                    pp = du["sequence_header"]["parse_parameters"]
+                    mine = (pp["major_version"], pp["minor_version"], int(pp["profile"]), int(pp["level"]))
+                    theirs = (vh["major_version"], vh["minor_version"], int(vh["profile"]), int(vh["level"]))
+                    if mine != theirs:
+                        return viol("C08/parse-parameters-differ", "parse parameters differ: deserialiser %r validator %r" % (mine, theirs))
+                    if hi - 1 >= len(d.headers):
+                        return viol("C08/header-count", "deserialiser decoded fewer sequence headers than it lists")
+                    dh_vp, dh_pcm = d.headers[hi - 1]
+                    dvp = {k: int(x) if not isinstance(x, bool) else x for k, x in dh_vp.items()}
+                    vvp = {k: int(x) if not isinstance(x, bool) else x for k, x in vh["video_parameters"].items()}
+                    if dvp != vvp or int(dh_pcm) != int(vh["picture_coding_mode"]):
+                        return viol("C08/video-parameters-differ", "decoded video parameters differ:\n deserialiser=%r\n validator  =%r" % (dvp, vvp))
+                elif code in PICTURE_CODES:
+                    td = du["picture_parse"]["wavelet_transform"]["transform_data"]
+                    st = td["_state"]
+                    slices = td["ld_slices"] if code == 0xC8 else td["hq_slices"]
+                    tp = du["picture_parse"]["wavelet_transform"]["transform_parameters"]
+                    r = self._compare_picture(st, slices, code == 0xC8, v, di, du["picture_parse"]["picture_header"]["picture_number"], tp)
+                    di += 1
+                    if r:
+                        return viol(*r)
+                elif code in FRAGMENT_CODES:
+                    fp = du["fragment_parse"]
+                    if fp["fragment_header"]["fragment_slice_count"] == 0:
+                        frag_slices = []
+                        frag_pn = fp["fragment_header"]["picture_number"]
+                        frag_tp = fp["transform_parameters"]
+                        frag_state = None
+                    else:
+                        fd = fp["fragment_data"]
+                        frag_state = fd["_state"]
+                        frag_slices.extend(fd["ld_slices"] if code == 0xCC else fd["hq_slices"])
+                        if len(frag_slices) == frag_state["slices_x"] * frag_state["slices_y"]:
+                            r = self._compare_picture(frag_state, frag_slices, code == 0xCC, v, di, frag_pn, frag_tp)
+                            di += 1
+                            frag_slices = None
+                            if r:
+                                return viol(*r)
+        if hi != len(v.headers) or di != len(v.decodes):
+            return viol("C08/count-mismatch", "deserialiser saw %d headers/%d pictures, validator %d/%d" % (hi, di, len(v.headers), len(v.decodes)))
+        stats["pictures_compared"] += di
+        return Outcome(OK, events, stats=stats, nontrivial=changed, key=key, ticks=v.reads)
+
+    def _compare_picture(self, st, slices, is_ld, v, di, picture_number, tp_ctx):
+        if di >= len(v.decodes):
+            return ("C08/picture-count", "deserialiser saw more complete pictures than the validator decoded")
+        vd = v.decodes[di]
+        for k, val in vd["params"].items():
+            if k == "parse_code":
+                continue
+            mine = picture_number if k == "picture_number" else st.get(k)
+            if mine is None or int(mine) != int(val):
+                return ("C08/transform-parameter-differs/%s" % k, "picture %d: %s: deserialiser %r validator %r" % (di, k, mine, val))
+        try:
+            dq = described_quant_matrix(tp_ctx, st)
+        except Exception as e:  # noqa: BLE001
+            return (exc_sig("C08/quant-matrix-unavailable", e), "no quantisation matrix derivable from the description:\n%s" % short_tb(e))
+        if dq != vd["quant_matrix"]:
+            return ("C08/quant-matrix-differs", "picture %d: quantisation matrix: deserialiser %r validator %r" % (di, dq, vd["quant_matrix"]))
+        try:
+            mine = rebuild_transform(st, slices, is_ld, dq)
+        except Exception as e:  # noqa: BLE001
+            return (exc_sig("C08/rebuild-failed", e), "could not rebuild the transform from the deserialised slices:\n%s" % short_tb(e))
+        for comp, k in (("Y", "y"), ("C1", "c1"), ("C2", "c2")):
+            if mine[comp] != vd[k]:
+                for lvl in vd[k]:
+                    for o in vd[k][lvl]:
+                        if mine[comp].get(lvl, {}).get(o) != vd[k][lvl][o]:
+                            return (
+                                "C08/coefficients-differ",
+                                "picture %d component %s level %d %s: deserialised+dequantised coefficients differ from the validator's\n deser=%r\n valid=%r"
+                                % (di, comp, lvl, o, mine[comp].get(lvl, {}).get(o), vd[k][lvl][o]),
+                            )
+                return ("C08/coefficients-differ", "picture %d component %s: band structure differs" % (di, comp))
+        return None
+
+
+register(C08())
+
+
+class C09(AcceptedSpec):
+    prop = "C09"
+    title = "Every decoded picture is well-formed"
+    quick_runs = 32000
+    thorough_runs = 800000
+    rule = (
+        "each run = seeded workload + explicit fault list weighted towards slice payload bits (extreme / dangling "
+        "coefficients), length bytes and header fields; only streams the real validator ACCEPTS are judged. Judged on "
+        "every picture delivered to the output callback: per-component width/height implied by the decoded header "
+        "values and coding mode (harness arithmetic), every sample an int in [0, 2^depth-1], pic_num equal to the four "
+        "bytes coded after the data unit's parse_info (read by the harness from the raw bytes), and callbacks == picture "
+        "units + zero-slice fragments. non-trivial = accepted although a fault changed the bytes."
+    )
+
+    def judge_accepted(self, case, data, changed, v, events, stats, key):
+        def viol(sig, detail):
+            return Outcome(VIOLATION, events, sig=sig, detail=detail, stats=stats, nontrivial=changed, key=key, ticks=v.reads)
+
+        coded = []
+        hdr_index_at = []
+        nh = 0
+        for off, code, _n, _p in v.unit_codes:
+            code = int(code)
+            if code == 0x00:
+                nh += 1
+            elif code in PICTURE_CODES:
+                coded.append(int.from_bytes(data[off + 13 : off + 17], "big"))
+                hdr_index_at.append(nh - 1)
+            elif code in FRAGMENT_CODES:
+                if int.from_bytes(data[off + 19 : off + 21], "big") == 0:
+                    coded.append(int.from_bytes(data[off + 13 : off + 17], "big"))
+                    hdr_index_at.append(nh - 1)
+        if len(v.pics) != len(coded):
+            return viol("C09/picture-count", "%d pictures output but the stream holds %d picture units / first fragments" % (len(v.pics), len(coded)))
+        for i, (pic, vp, pcm) in enumerate(v.pics):
+            if hdr_index_at[i] < 0:
+                return viol("C09/no-header", "picture output before any sequence header")
+            hd = v.headers[hdr_index_at[i]]
+            dims = h_dims(hd["video_parameters"], hd["picture_coding_mode"])
+            if pic.get("pic_num") != coded[i]:
+                return viol("C09/pic-num", "picture %d: pic_num %r but the stream codes %d" % (i, pic.get("pic_num"), coded[i]))
+            for comp, (w, h, depth) in dims.items():
+                rows = pic[comp]
+                if len(rows) != h or any(len(r) != w for r in rows):
+                    return viol("C09/dimensions", "picture %d component %s is %dx%d, header implies %dx%d" % (i, comp, len(rows[0]) if rows else 0, len(rows), w, h))
+                top = (1 << depth) - 1
+                for r in rows:
+                    for s in r:
+                        if type(s) is not int or s < 0 or s > top:
+                            return viol("C09/sample-range", "picture %d component %s holds sample %r outside [0, %d]" % (i, comp, s, top))
+            if set(pic.keys()) != {"Y", "C1", "C2", "pic_num"}:
+                return viol("C09/keys", "picture %d has keys %r" % (i, sorted(pic.keys())))
+        stats["pictures_checked"] += len(v.pics)
+        return Outcome(OK, events, stats=stats, nontrivial=changed, key=key, ticks=v.reads)
+
+
+register(C09())
